@@ -233,6 +233,9 @@ type TxnScenario struct {
 	// FlushDelayMs > 0: the library's flush goroutine starts its work this long after Flush() returned (failpoint
 	// beforePipelinedFlush), so that the next program steps - or Rollback - run before the first Flush RPC leaves.
 	FlushDelayMs int `json:"flush_delay_ms,omitempty"`
+	// AsyncBatchGet: config.EnableAsyncBatchGet - batch gets (also those of the buffer tier) go through the asynchronous
+	// sender, which has its own retry and re-grouping code
+	AsyncBatchGet bool `json:"async_batch_get,omitempty"`
 }
 
 var txnKeys = []string{"k1", "k2", "k3", "k4", "k5", "k6", "k7", "k8"}
@@ -246,6 +249,7 @@ var lossyFaults = []simkit.Fate{simkit.DropReq, simkit.DropResp, simkit.DropReqS
 func genTxn(cfg simkit.RunConfig, faulted bool) *Scenario {
 	r := simkit.Rand(cfg.Seed, "gen-txn")
 	t := &TxnScenario{Faulted: faulted, Stores: 1 + r.Intn(3), FlushConc: []int{1, 2, 8, 128}[r.Intn(4)], ResolveConc: []int{1, 2, 8}[r.Intn(3)], TTLMs: 3000 + 1000*r.Intn(4)}
+	t.AsyncBatchGet = simkit.Rand(cfg.Seed, "async-batch-get").Intn(3) == 0
 	t.Th = Thresholds{MinFlushKeys: 1 + r.Intn(3), MinFlushSize: 0, ForceFlushSize: hugeSize}
 	nk := 3 + r.Intn(len(txnKeys)-2)
 	t.Keys = append([]string(nil), txnKeys[:nk]...)
